@@ -37,6 +37,7 @@ func (c *clock) CurrentTimeNano() uint64   { return c.ns }
 
 type Interp struct {
 	clk *clock
+	rec [][]string // the ops of phase A that are not reloads: `phase B` runs them again
 }
 
 var errTraffic = errors.New("biz error")
@@ -51,6 +52,11 @@ func New() vh.Interp {
 }
 
 func (it *Interp) Reset() {
+	it.rec = nil
+	it.clear()
+}
+
+func (it *Interp) clear() {
 	_ = flow.ClearRules()
 	_ = circuitbreaker.ClearRules()
 	_ = hotspot.ClearRules()
@@ -117,12 +123,32 @@ func flowRules(arg string) []*flow.Rule {
 }
 
 func (it *Interp) Step(t []string, op string) string {
+	if t[0] == "phase" {
+		// the same traffic once more, from scratch, without the reloads
+		it.clear()
+		var out []string
+		for _, o := range it.rec {
+			r := it.step(o, strings.Join(o, " "))
+			if o[0] == "e" {
+				out = append(out, r)
+			}
+		}
+		if len(out) == 0 {
+			return "-"
+		}
+		return strings.Join(out, ";")
+	}
+	r := it.step(t, op)
+	if !strings.Contains(t[0], ".reload") {
+		it.rec = append(it.rec, append([]string(nil), t...))
+	}
+	return r
+}
+
+func (it *Interp) step(t []string, op string) string {
 	switch t[0] {
 	case "t":
 		it.clk.ns = vh.U(t[1]) * 1e6
-		return ""
-	case "phase":
-		it.Reset()
 		return ""
 	case "cb.load", "cb.reload":
 		if _, err := circuitbreaker.LoadRules(cbRules(t[1])); err != nil {
